@@ -473,3 +473,895 @@ def glob_correspondence(chk, model_bin, globdrv_bin, tier, fixed):
     C.log("glob correspondence: %d cases %s, m positive ratio %.3f, %d disagreement(s), model %.1fs impl %.1fs" % (
         len(lines), kinds, res["m_positive_ratio"], len(bad), t1 - t0, t2 - t1))
     return res
+
+
+# =================================================================================================
+# the walk part of the tie: walkdrv (real walk_serial / walk_parallel on materialised trees) vs
+# globmodel (spec_walk, serial_walk, the parallel machine, the H2 trace validator), the oracle written
+# from the property text, the CLI level, and the check entry point
+# =================================================================================================
+import json, os, re, time, importlib.util, subprocess
+
+WALK_TIE = ("globmodel w/t (spec_walk, serial_walk, par_step machine, H2 trace replay) vs walkdrv "
+            "(xvc_walker::walk_serial / walk_parallel on materialised trees)")
+P17_CLASS = "nested-ignore-pattern-acts-outside-its-directory"
+IGN = ".xvcignore"
+THEOREMS_WALK = "pattern_local / par_walk_deterministic / serial_eq_spec / ignored_dir_hides_subtree / never_enters_xvc_git"
+
+TRUSTED = [
+    "Coq 8.16.1 kernel, coqc; vm_compute in Examples and _refuted witnesses only; no native_compute",
+    "axioms: none (Print Assumptions: Closed under the global context for every theorem of Props/C09.v)",
+    "extraction: ExtrOcamlBasic only (Extract Inductive bool/option/unit/list/prod/sumbool/sumor; inlined andb/orb); ocamlfind ocamlopt 4.13.1; "
+    "coq/extract/common.ml + glob_driver.ml (parsing/printing; check_string = the path string IgnoreRules::check builds; tree_of_entries = flat entry list -> model tree)",
+    "translator gen/common_ignore.py (regular expressions over core/src/util/xvcignore.rs, core/src/lib.rs, walker/src/lib.rs, core/src/util/file.rs): "
+    "COMMON_IGNORE_PATTERNS, XVC_DIR, XVCIGNORE_FILENAME, MAX_THREADS_PARALLEL_WALK, the callers' use of COMMON_IGNORE_PATTERNS; a construct it cannot find turns a boolean false and an Example of Props/C09.v fails",
+    "correspondence: harness/src/bin/globdrv.rs (real fast_glob::glob_match 0.3.3, Pattern::new, content_to_patterns, IgnoreRules::check), "
+    "harness/src/bin/walkdrv.rs (real walk_serial / walk_parallel on trees materialised in a scratch directory), hook H2 in walker/src/walk_parallel.rs "
+    "(thread-level trace under a step mutex + seeded jitter, cfg xvc_verif only; when the hook is not in the tree the trace replay is skipped and said so in the evidence), "
+    "vlib/c09.py generators, canonicaliser, oracle and class predicate",
+    "modelled, not verified: fast-glob 0.3.3 glob_match_normal as Glob/Match.v (transliteration, differential-tested); walker/src/pattern.rs Pattern::new and "
+    "walker/src/lib.rs content_to_patterns / update_ignore_rules as Glob/Pattern.v; walker/src/ignore_rules.rs (check, merge_with, add_patterns, from_global_patterns), "
+    "walk_serial.rs, walk_parallel.rs as Walker/Model.v; rayon find_any is an `any`; read_dir order is the order of the children list (every order is covered by the theorems); "
+    "no symlinks, no unreadable directories, ASCII ignore files in generated trees",
+    "environment assumptions: the tree does not change during a walk; file names are non-empty and contain no '/' (wf_tree); SegQueue / RwLock / scoped threads behave as specified",
+]
+
+
+def _load_gen():
+    spec = importlib.util.spec_from_file_location("common_ignore", os.path.join(C.ROOT, "gen", "common_ignore.py"))
+    m = importlib.util.module_from_spec(spec); spec.loader.exec_module(m)
+    return m
+
+
+def install_findings_fallback():
+    """known_findings.json is assembled by the coordinator from findings.d/; until it contains the
+    entries of this property, the fragment findings.d/C09.json is read directly (same content)."""
+    orig = C.known_findings
+
+    def kf(prop):
+        r = orig(prop)
+        try:
+            data = json.load(open(os.path.join(C.ROOT, "known_findings.json")))
+            if any(f.get("property") == prop for f in data.get("findings", [])):
+                return r
+        except (OSError, ValueError):
+            pass
+        p = os.path.join(C.ROOT, "findings.d", prop + ".json")
+        if os.path.exists(p):
+            return [f for f in json.load(open(p)) if f.get("property") == prop and f.get("status") == "open"]
+        return r
+    if getattr(orig, "_c09_fallback", False):
+        return
+    kf._c09_fallback = True
+    C.known_findings = kf
+
+
+def _run_cmd_lines(cmd, lines, env=None, shards=1, timeout=1200):
+    """C.run_lines for a driver that takes arguments"""
+    if shards <= 1 or len(lines) < 2 * shards:
+        rc, out = C.sh(cmd, input="\n".join(lines) + "\n", timeout=timeout, env=env, stderr=subprocess.DEVNULL)
+        outl = out.split("\n")
+        if outl and outl[-1] == "":
+            outl.pop()
+        return rc, outl
+    from concurrent.futures import ThreadPoolExecutor
+    chunks = [lines[i::shards] for i in range(shards)]
+    with ThreadPoolExecutor(shards) as ex:
+        rs = list(ex.map(lambda c: _run_cmd_lines(cmd, c, env, 1, timeout), chunks))
+    outl = [None] * len(lines)
+    rc = 0
+    for i, (r, o) in enumerate(rs):
+        rc = rc or r
+        for j, l in enumerate(o[:len(chunks[i])]):
+            outl[i + j * shards] = l
+    return rc, [l if l is not None else "<missing>" for l in outl]
+
+
+# ---- trees -----------------------------------------------------------------------------------------
+# an entry is [kind, path, content]: kind "d" | "f", path relative to the walk root, parents first
+def enc_entries(entries):
+    if not entries:
+        return "-"
+    return ",".join(k + _hx(p) + (":" + _hx(c) if c else "") for k, p, c in entries)
+
+
+def parent_of(p):
+    return p.rsplit("/", 1)[0] if "/" in p else ""
+
+
+def under(p, d):
+    """p is strictly below directory d ('' = the root)"""
+    return d == "" or p.startswith(d + "/")
+
+
+def reorder(entries, rank):
+    """the same tree with the children of every directory sorted by rank(path) (stable)"""
+    kids = {}
+    for i, e in enumerate(entries):
+        kids.setdefault(parent_of(e[1]), []).append((rank(e[1]), i, e))
+    out = []
+
+    def go(d):
+        for _, _, e in sorted(kids.get(d, []), key=lambda x: (x[0], x[1])):
+            out.append(e)
+            if e[0] == "d":
+                go(e[1])
+    go("")
+    return out
+
+
+_W_DIRS = ["a", "b", "c", "ab", "a1", "sub"]
+_W_FILES = ["foo.tmp", "a.txt", "b.txt", "foo", "c.tmp", "1", "x.dat", "a", "b.c", ".h"]
+
+
+def _walk_line(rng, names, inside):
+    """one ignore-file line from the grammar of the property (names, *.ext, dir/, /anchored, a/b, **/x,
+    !negations) over names that exist in the tree; `inside`: paths below the file's own directory"""
+    k = rng.random()
+    if k < 0.12 or not names:
+        return _rule_line(rng, rng.choice(inside).split("/") if inside and rng.random() < 0.7 else None)
+    pool = inside if inside and rng.random() < 0.45 else names
+    comps = rng.choice(pool).split("/")
+    last = comps[-1]
+    s = rng.random()
+    if s < 0.34:
+        body = last
+    elif s < 0.50:
+        body = "*." + last.rsplit(".", 1)[1] if "." in last[1:] else last[0] + "*"
+    elif s < 0.60:
+        body = rng.choice(comps) + "/"
+    elif s < 0.70:
+        body = "/" + rng.choice(comps)
+    elif s < 0.80 and len(comps) > 1:
+        body = comps[-2] + "/" + last
+    elif s < 0.88:
+        body = "**/" + last
+    elif s < 0.93:
+        body = "*"
+    else:
+        body = _seg(rng, last)
+    if rng.random() < 0.16:
+        body = "!" + body
+    return body
+
+
+def gen_tree(rng, max_nodes=30):
+    """a tree of at most max_nodes entries with ignore files at every depth, .xvc / .git directories,
+    and (often) the same file names in sibling directories"""
+    entries, dirs = [], [""]
+    budget = [max_nodes - rng.randint(0, 12)]
+    shared = rng.sample(_W_FILES, rng.randint(1, 3))
+
+    def fill(d, depth):
+        nd = rng.randint(1, 4) if depth == 0 else (rng.randint(0, 2) if depth < 3 else 0)
+        nf = rng.randint(0, 3) if depth == 0 else rng.randint(0, 4)
+        pool = _W_DIRS + (["a[1]"] if rng.random() < 0.08 else [])
+        subs = rng.sample(pool, min(nd, len(pool)))
+        files = set(rng.sample(_W_FILES, min(nf, len(_W_FILES))))
+        if depth > 0 and rng.random() < 0.6:
+            files.add(rng.choice(shared))
+        for f in sorted(files):
+            if budget[0] <= 0 or f in subs:
+                continue
+            entries.append(["f", (d + "/" if d else "") + f, ""]); budget[0] -= 1
+        for s in subs:
+            if budget[0] <= 0:
+                break
+            p = (d + "/" if d else "") + s
+            entries.append(["d", p, ""]); dirs.append(p); budget[0] -= 1
+            fill(p, depth + 1)
+    fill("", 0)
+    # .xvc and .git: never reported, wherever they are
+    for special in (".xvc", ".git"):
+        if rng.random() < 0.4:
+            d = rng.choice(dirs) if rng.random() < 0.5 else ""
+            p = (d + "/" if d else "") + special
+            entries.append(["d", p, ""])
+            entries.append(["f", p + "/" + rng.choice(["HEAD", "config.toml", "foo.tmp"]), ""])
+    names = [e[1] for e in entries]
+    nested = [d for d in dirs if d]
+    for d in dirs:
+        if rng.random() < (0.45 if d == "" else 0.4):
+            inside = [n[len(d) + 1 if d else 0:] for n in names if under(n, d)]
+            lines = [_walk_line(rng, names, inside) for _ in range(rng.randint(1, 3))]
+            eol = "\r\n" if rng.random() < 0.08 else "\n"
+            txt = eol.join(lines) + (eol if rng.random() < 0.8 else "")
+            entries.append(["f", (d + "/" if d else "") + IGN, txt])
+    # the motif of P17: a nested ignore file with a name-only line naming a file of another directory
+    if nested and rng.random() < 0.5:
+        d = rng.choice(nested)
+        other = [n for n in names if not under(n, d) and n != d and "/" in n]
+        if other:
+            line = rng.choice(other).split("/")[-1]
+            old = next((e for e in entries if e[1] == d + "/" + IGN), None)
+            if old:
+                old[2] = old[2] + ("" if old[2].endswith("\n") or not old[2] else "\n") + line + "\n"
+            else:
+                entries.append(["f", d + "/" + IGN, line + "\n"])
+    return reorder(entries, lambda p: 0)
+
+
+def shuffle_tree(rng, entries):
+    r = {e[1]: rng.random() for e in entries}
+    return reorder(entries, lambda p: r[p])
+
+
+def tree_is_nontrivial(entries):
+    """rule of the evidence counter: an ignore file below the root with a name-only line (no '/' before
+    its end) whose name pattern matches, by fnmatch, the last component of a path outside its directory"""
+    import fnmatch
+    names = [e[1] for e in entries]
+    for k, p, c in entries:
+        if k == "f" and p.endswith("/" + IGN):
+            d = parent_of(p)
+            for l in c.replace("\r", "").split("\n"):
+                l = l.strip()
+                if not l or l.startswith("#"):
+                    continue
+                body = l.lstrip("!").rstrip("/")
+                if "/" in body or not body:
+                    continue
+                for n in names:
+                    if not under(n, d) and n != d and fnmatch.fnmatchcase(n.split("/")[-1], body):
+                        return True
+    return False
+
+
+# ---- running both sides ----------------------------------------------------------------------------
+def real_walks(walkdrv, base, trees, globals_txt, reps, jitter_seed=None, trace=False, shards=8):
+    lines = ["w %d %s %s" % (reps, _hx(globals_txt), enc_entries(t)) for t in trees]
+    env = {}
+    if jitter_seed is not None:
+        env["XVC_VERIF_WALK_JITTER"] = str(jitter_seed)
+    if trace:
+        env["XVC_VERIF_WALK_TRACE"] = os.path.join(base, "h2trace")
+    rc, out = _run_cmd_lines([walkdrv, base], lines, env=env, shards=shards)
+    res = []
+    for l in out:
+        try:
+            res.append(json.loads(l))
+        except ValueError:
+            res.append({"error": "unparsable walkdrv answer: %r" % l[:200]})
+    while len(res) < len(trees):
+        res.append({"error": "walkdrv produced no answer (rc=%s)" % rc})
+    return res
+
+
+def parse_model_walk(line):
+    d = {}
+    for part in line.split(";"):
+        if "=" in part:
+            k, v = part.split("=", 1)
+            d[k] = v
+    def paths(v):
+        return [] if v in ("-", None) else [_unhx(x) for x in v.split(",")]
+    if "spec" not in d:
+        return {"error": line}
+    return {"spec": paths(d.get("spec")), "serial": None if d.get("serial") == "OOF" else paths(d.get("serial")),
+            "par": paths(d.get("par")), "final": d.get("final") == "1", "wf": d.get("wf") == "1"}
+
+
+def model_walks(model_bin, trees, globals_txt, fixed, nthreads=8, scheds=None):
+    lines = []
+    for i, t in enumerate(trees):
+        sched = scheds[i] if scheds else []
+        lines.append("w %d %d %s %s %s %d" % (1 if fixed else 0, nthreads, _hx(globals_txt), enc_entries(t),
+                                              ",".join("%d.%d" % s for s in sched) or "-", 6 * len(t) + 12))
+    rc, out = C.run_lines(model_bin, lines, shards=8)
+    return [parse_model_walk(l) for l in out] + [{"error": "no answer"}] * (len(trees) - len(out))
+
+
+def random_schedule(rng, nthreads, n):
+    return [(rng.randrange(nthreads), rng.randrange(3) if rng.random() < 0.3 else 0) for _ in range(n)]
+
+
+# ---- the class predicate of P17 ---------------------------------------------------------------------
+def foreign_hits(model_bin, entries, paths):
+    """for every path in `paths`: the (directory, line) pairs of nested ignore files (directory != root)
+    whose glob -- as Pattern::new builds it -- matches the path or one of its ancestors although that
+    path is not below the directory.  Decided with the extracted matcher (tied to the real one by the
+    glob correspondence)."""
+    rules = []
+    for k, p, c in entries:
+        if k == "f" and p.endswith("/" + IGN):
+            rules.append((parent_of(p), c))
+    if not rules or not paths:
+        return {q: [] for q in paths}
+    rc, out = C.run_lines(model_bin, ["c %s %s" % (_hx(d), _hx(c)) for d, c in rules])
+    globs = []
+    for (d, c), ans in zip(rules, out):
+        if ans in ("-", "PANIC") or ans.startswith("ERROR"):
+            continue
+        for it in ans.split(","):
+            globs.append((d, _unhx(it.split(":")[1])))
+    queries, idx = [], []
+    for q in paths:
+        comps = q.split("/")
+        for n in range(1, len(comps) + 1):
+            a = "/".join(comps[:n])
+            for d, g in globs:
+                if not under(a, d):
+                    queries.append("m %s %s" % (_hx(g), _hx("/" + a))); idx.append((q, d, g, a))
+    res = {q: [] for q in paths}
+    if queries:
+        rc, out = C.run_lines(model_bin, queries, shards=4)
+        for (q, d, g, a), ans in zip(idx, out):
+            if ans == "1":
+                res[q].append((d, g, a))
+    return res
+
+
+def p17_explains(model_bin, entries, ref, observed_sets):
+    """the class predicate: every path on which an observed result differs from the reference (the walk
+    under local semantics) is matched -- itself or an ancestor -- by a pattern of a nested ignore file
+    it is not below"""
+    diff = set()
+    for s in observed_sets:
+        diff |= set(s) ^ set(ref)
+    if not diff:
+        return False, {}
+    hits = foreign_hits(model_bin, entries, sorted(diff))
+    return all(hits[q] for q in diff), {q: ["%s/.xvcignore: %s matches /%s" % (d, g, a) for d, g, a in hits[q][:2]] for q in sorted(diff)}
+
+
+WHITE_CLASS = "whitelist-line-reincludes-xvc-or-git"
+
+
+def whitelist_explains(model_bin, entries, paths, fixed):
+    """the class predicate of the second finding: for every reported path with a .xvc / .git component,
+    the directory of that name is matched by the glob of a whitelist ('!') line of some ignore file
+    (with the locality fix: of an ignore file above it)"""
+    rules = [(parent_of(p), c) for k, p, c in entries if k == "f" and p.split("/")[-1] == IGN]
+    if not rules or not paths:
+        return False, {}
+    rc, out = C.run_lines(model_bin, ["c %s %s" % (_hx(d), _hx(c)) for d, c in rules])
+    wl = []
+    for (d, c), ans in zip(rules, out):
+        if ans in ("-", "PANIC") or ans.startswith("ERROR"):
+            continue
+        wl += [(d, _unhx(it.split(":")[1])) for it in ans.split(",") if it.startswith("w:")]
+    why, ok = {}, True
+    for q in paths:
+        comps = q.split("/")
+        j = min(i for i, c in enumerate(comps) if c in (".xvc", ".git"))
+        a = "/".join(comps[:j + 1])
+        cands = [(d, g) for d, g in wl if (under(a, d) or not fixed)]
+        hit = None
+        if cands:
+            rc, o2 = C.run_lines(model_bin, ["m %s %s" % (_hx(g), _hx("/" + a)) for d, g in cands])
+            hit = next(((d, g) for (d, g), ans in zip(cands, o2) if ans == "1"), None)
+        if hit is None:
+            ok = False
+        else:
+            why[q] = "%s/.xvcignore: whitelist glob %s matches /%s" % (hit[0], hit[1], a)
+    return ok, why
+
+
+# ---- the oracle, from the property text ---------------------------------------------------------------
+def oracle_walk(entries, res):
+    """judges one real result (walkdrv answer) against the property; returns a list of
+    (category, what, detail); category: sets | special | structure"""
+    bad = []
+    if "error" in res or res.get("panic"):
+        return [("structure", "the walk failed: %s" % (res.get("error") or "panic"), {})]
+    serial = res["serial"]
+    sets = [set(serial)] + [set(p["set"]) for p in res["par"]]
+    names = {e[1] for e in entries}
+    # same set on every run and in both walkers
+    if len(res["par"]) > 1:
+        a, b = res["par"][0]["set"], res["par"][1]["set"]
+        bad.append(("sets", "walk_parallel returned different path sets on repeated runs of the same tree (%d distinct results)" % len(res["par"]),
+                    {"only_in_one": sorted(set(a) ^ set(b))}))
+    if res["par"] and set(serial) != set(res["par"][0]["set"]):
+        bad.append(("sets", "walk_serial and walk_parallel returned different path sets",
+                    {"serial_only": sorted(set(serial) - set(res["par"][0]["set"])), "parallel_only": sorted(set(res["par"][0]["set"]) - set(serial))}))
+    if len(serial) != len(set(serial)) or res.get("dups"):
+        bad.append(("structure", "a path was reported twice by one walk", {}))
+    allp = set().union(*sets)
+    special = sorted(q for q in allp if ".xvc" in q.split("/") or ".git" in q.split("/"))
+    if special:
+        bad.append(("special", "a path inside .xvc / .git was reported: %s" % special[0], {"paths": special}))
+    ghosts = sorted(q for q in allp if q not in names)
+    if ghosts:
+        bad.append(("structure", "a path that does not exist in the tree was reported: %s" % ghosts[0], {"paths": ghosts}))
+    for s in sets:
+        orphan = sorted(q for q in s if "/" in q and parent_of(q) not in s)
+        if orphan:
+            bad.append(("structure", "a path below a directory that was not reported (ignored) was reported: %s" % orphan[0], {"paths": orphan}))
+            break
+    return bad
+
+
+def locality_variants(entries, limit=2):
+    """(directory, tree with that directory's ignore file emptied) for nested ignore files"""
+    out = []
+    for i, (k, p, c) in enumerate(entries):
+        if k == "f" and p.endswith("/" + IGN) and c.strip():
+            t = [list(e) for e in entries]
+            t[i][2] = ""
+            out.append((parent_of(p), t))
+    return out[:limit]
+
+
+def oracle_locality(d, res, res_variant):
+    """a pattern written in d/.xvcignore affects only paths under d: emptying the file must not change
+    what is reported outside d"""
+    if any("error" in r or r.get("panic") for r in (res, res_variant)):
+        return None
+    def outside(s):
+        return frozenset(q for q in s if not under(q, d))
+    a = {outside(res["serial"])} | {outside(p["set"]) for p in res["par"]}
+    b = {outside(res_variant["serial"])} | {outside(p["set"]) for p in res_variant["par"]}
+    if a != b or len(a) != 1:
+        x, y = sorted(a, key=sorted)[0], sorted(b, key=sorted)[-1]
+        return ("the lines of %s/.xvcignore change what is reported outside %s/" % (d, d),
+                {"changed_outside": sorted(set(x) ^ set(y)) or sorted(set().union(*a) ^ set().union(*b))})
+    return None
+
+
+# ---- H2 traces ---------------------------------------------------------------------------------------
+def trace_model_line(entries, tr, globals_txt, fixed, nthreads=8):
+    """the `t` line for one logged run: paths made relative to the walk root (the path of the `start`
+    event), children of every directory ordered as they were checked"""
+    evs = tr["events"]
+    if not evs or evs[0].get("ev") != "start":
+        return None
+    root = evs[0]["path"]
+
+    def rel(p):
+        if p == root:
+            return ""
+        return p[len(root) + 1:] if p.startswith(root + "/") else "<outside>" + p
+    order, items = {}, []
+    for e in evs:
+        p = rel(e["path"]) if e["ev"] != "exit" else ""
+        if e["ev"] == "check":
+            order.setdefault(p, len(order))
+            items.append("%d.check.%s.%s" % (e["th"], _hx(p), e["res"]))
+        else:
+            items.append("%d.%s.%s" % (e["th"], e["ev"], _hx(p)))
+    t = reorder(entries, lambda p: order.get(p, 1 << 30))
+    return "t %d %d %s %s %s" % (1 if fixed else 0, nthreads, _hx(globals_txt), enc_entries(t), ",".join(items) or "-")
+
+
+def interleaving_degree(tr):
+    """number of adjacent event pairs performed by different threads (how interleaved the run was)"""
+    ths = [e["th"] for e in tr["events"] if e["ev"] in ("merge", "check", "push")]
+    return sum(1 for a, b in zip(ths, ths[1:]) if a != b)
+
+
+# ---- one batch of trees: correspondence + oracle -----------------------------------------------------
+def walk_batch(chk, bins, base, trees, globals_txt, fixed, reps, jitter_seed, want_locality=True, label="gen"):
+    """runs the real walkers and the model on the trees; returns (failures, stats).  A failure is a dict
+    {kind: oracle|correspondence, what, tree, detail, klass}"""
+    model_bin, walkdrv = bins["model"], bins["walkdrv"]
+    rng = chk.rng
+    stats = {"trees": len(trees), "walks": 0, "traces": 0, "trace_events": 0, "interleaved_pairs": 0, "nondeterministic_trees": 0,
+             "serial_ne_parallel_trees": 0, "locality_variants": 0}
+    fails = []
+    real = real_walks(walkdrv, base, trees, globals_txt, reps, jitter_seed, trace=True)
+    # the model gets each tree with the children in the order walk_serial listed them
+    ordered = []
+    for t, r in zip(trees, real):
+        pos = {p: i for i, p in enumerate(r.get("serial") or [])}
+        ordered.append(reorder(t, lambda p: pos.get(p, 1 << 30)))
+    scheds = [random_schedule(rng, 8, rng.randint(0, 5 * len(t))) for t in trees]
+    m_now = model_walks(model_bin, ordered, globals_txt, fixed, scheds=scheds)
+    m_ref = m_now if fixed else model_walks(model_bin, ordered, globals_txt, True, scheds=scheds)
+    variants, vidx = [], []
+    if want_locality:
+        for i, t in enumerate(trees):
+            for d, tv in locality_variants(t):
+                variants.append(tv); vidx.append((i, d))
+    vres = real_walks(walkdrv, base, variants, globals_txt, max(2, reps // 3), jitter_seed, trace=False) if variants else []
+    stats["locality_variants"] = len(variants)
+    tlines, tmeta = [], []
+    for i, (t, r, mn, mr) in enumerate(zip(trees, real, m_now, m_ref)):
+        stats["walks"] += 1 + sum(p["n"] for p in r.get("par", []))
+        nt = tree_is_nontrivial(t)
+        chk.count(("walk", enc_entries(t)), nt)
+        if "error" in mn or "error" in mr or not mn.get("wf", False):
+            fails.append({"kind": "correspondence", "what": "the model rejected the tree: %r" % (mn,), "tree": t, "detail": {}, "klass": None})
+            continue
+        ref = mr["spec"]
+        obs = oracle_walk(t, r)
+        if "serial" in r:
+            observed_sets = [r["serial"]] + [p["set"] for p in r["par"]]
+            if len(r["par"]) > 1:
+                stats["nondeterministic_trees"] += 1
+            if r["par"] and set(r["serial"]) != set(r["par"][0]["set"]):
+                stats["serial_ne_parallel_trees"] += 1
+            # the reference of the property: the walk in which every pattern acts only below its directory
+            if any(set(s) != set(ref) for s in observed_sets):
+                s = next(s for s in observed_sets if set(s) != set(ref))
+                obs.append(("sets", "the reported paths differ from the walk in which every pattern acts only below the directory of its ignore file",
+                            {"hidden": sorted(set(ref) - set(s)), "shown": sorted(set(s) - set(ref))}))
+            so = [o for o in obs if o[0] == "sets"]
+            if so:
+                ok, why = p17_explains(model_bin, t, ref, observed_sets)
+                fails.append({"kind": "oracle", "what": so[0][1], "tree": t, "detail": {"all": [o[1] for o in so], "first": so[0][2], "foreign_patterns": why},
+                              "klass": P17_CLASS if ok else None, "cat": "sets"})
+            for cat, what, det in obs:
+                if cat == "special":
+                    ok, why = whitelist_explains(model_bin, t, det["paths"], fixed)
+                    fails.append({"kind": "oracle", "what": what, "tree": t, "detail": dict(det, whitelist_lines=why), "klass": WHITE_CLASS if ok else None, "cat": cat})
+                elif cat == "structure":
+                    fails.append({"kind": "oracle", "what": what, "tree": t, "detail": det, "klass": None, "cat": cat})
+            # correspondence with the model of the code as it is now
+            if mn["serial"] is None or r["serial"] != mn["serial"]:
+                fails.append({"kind": "correspondence", "what": "walk_serial: the model (fixed_P17=%s) lists %r, the implementation %r" % (fixed, mn["serial"], r["serial"]),
+                              "tree": ordered[i], "detail": {"model": mn["serial"], "observed": r["serial"]}, "klass": None})
+            if not mn["final"]:
+                fails.append({"kind": "correspondence", "what": "the model run did not reach a final configuration within its rounds", "tree": t, "detail": {}, "klass": None})
+            if fixed:
+                if sorted(mn["par"]) != sorted(ref):
+                    fails.append({"kind": "proof", "what": "model: par_walk under a generated schedule differs from spec_walk although fixed_P17 = true (par_walk_deterministic)",
+                                  "tree": ordered[i], "detail": {"schedule": scheds[i]}, "klass": None})
+                for p in r["par"]:
+                    if sorted(p["set"]) != sorted(ref):
+                        fails.append({"kind": "correspondence", "what": "walk_parallel: implementation %r, model spec_walk %r" % (p["set"], sorted(ref)),
+                                      "tree": t, "detail": {}, "klass": None})
+                        break
+            for tr in r.get("traces", []):
+                l = trace_model_line(t, tr, globals_txt, fixed)
+                if l is None:
+                    fails.append({"kind": "correspondence", "what": "H2 trace without a start event", "tree": t, "detail": {"events": tr["events"][:5]}, "klass": None})
+                    continue
+                tlines.append(l); tmeta.append((i, tr))
+                stats["trace_events"] += len(tr["events"]); stats["interleaved_pairs"] += interleaving_degree(tr)
+        else:
+            fails.append({"kind": "oracle", "what": "the walk failed: %s" % (r.get("error") or "panic"), "tree": t, "detail": r, "klass": None})
+    vref = model_walks(model_bin, variants, globals_txt, True) if variants else []
+    for (i, d), tv, rv, mv in zip(vidx, variants, vres, vref):
+        o = oracle_locality(d, real[i], rv)
+        if o:
+            # the class predicate looks at both trees of the pair: the difference outside d must come from
+            # results that differ from the local-semantics walk only on paths hit by foreign patterns
+            ok, why = False, {}
+            if "serial" in real[i] and "serial" in rv and "spec" in mv and "spec" in m_ref[i]:
+                o1 = [real[i]["serial"]] + [p["set"] for p in real[i]["par"]]
+                o2 = [rv["serial"]] + [p["set"] for p in rv["par"]]
+                d1 = any(set(x) != set(m_ref[i]["spec"]) for x in o1)
+                d2 = any(set(x) != set(mv["spec"]) for x in o2)
+                ok1, why1 = p17_explains(model_bin, trees[i], m_ref[i]["spec"], o1) if d1 else (True, {})
+                ok2, why2 = p17_explains(model_bin, tv, mv["spec"], o2) if d2 else (True, {})
+                ok = (d1 or d2) and ok1 and ok2
+                why = dict(why1); why.update(why2)
+            fails.append({"kind": "oracle", "what": o[0], "tree": trees[i], "detail": dict(o[1], directory=d, foreign_patterns=why), "klass": P17_CLASS if ok else None,
+                          "cat": "locality"})
+    if tlines:
+        rc, out = C.run_lines(model_bin, tlines, shards=8)
+        for (i, tr), l, ans in zip(tmeta, tlines, out):
+            stats["traces"] += 1
+            f = ans.split(" ")
+            if f[0] == "ok":
+                got = [] if f[2] == "-" else sorted(_unhx(x) for x in f[2].split(","))
+                if got != sorted(tr["set"]):
+                    fails.append({"kind": "correspondence", "what": "H2 trace replayed by the model gives %r, the run reported %r" % (got, sorted(tr["set"])),
+                                  "tree": trees[i], "detail": {"trace_line": l}, "klass": None})
+            else:
+                fails.append({"kind": "correspondence", "what": "H2 trace is not an execution of the parallel machine of the model: %s" % ans,
+                              "tree": trees[i], "detail": {"trace_line": l, "events_accepted": f[1] if len(f) > 1 else "?"}, "klass": None})
+    return fails, stats
+
+
+def shrink_tree(entries, still_fails, budget=60):
+    """drops entries (with their subtrees) and ignore-file lines while the failure persists"""
+    cur = [list(e) for e in entries]
+    n = [budget]
+
+    def ok(t):
+        if n[0] <= 0:
+            return False
+        n[0] -= 1
+        return still_fails(t)
+    changed = True
+    while changed and n[0] > 0:
+        changed = False
+        i = len(cur) - 1
+        while i >= 0 and n[0] > 0:
+            p = cur[i][1]
+            cand = [e for e in cur if e[1] != p and not e[1].startswith(p + "/")]
+            if len(cand) < len(cur) and cand and ok(cand):
+                cur, changed = cand, True
+                i = min(i, len(cur)) - 1
+            else:
+                i -= 1
+        for i, e in enumerate(cur):
+            if e[0] == "f" and e[1].split("/")[-1] == IGN and e[2]:
+                ls = e[2].replace("\r", "").split("\n")
+                j = 0
+                while j < len(ls) and len(ls) > 1 and n[0] > 0:
+                    cand_ls = ls[:j] + ls[j + 1:]
+                    cand = [list(x) for x in cur]
+                    cand[i][2] = "\n".join(cand_ls)
+                    if ok(cand):
+                        ls, cur, changed = cand_ls, cand, True
+                    else:
+                        j += 1
+    return cur
+
+
+def report_walk_failures(chk, bins, base, fails, globals_txt, fixed, reps, jitter_seed, stage="walk"):
+    """shrinks the first failures of each (kind, class) and reports all of them"""
+    shrunk_budget = {}
+    for f in fails:
+        key = (f["kind"], f["klass"], f.get("cat"))
+        tree = f["tree"]
+        if f["kind"] in ("oracle", "correspondence") and shrunk_budget.get(key, 0) < 2:
+            shrunk_budget[key] = shrunk_budget.get(key, 0) + 1
+
+            def still(t, f=f):
+                fs, _ = walk_batch(_Quiet(chk), bins, base, [t], globals_txt, fixed, reps, jitter_seed, label="shrink")
+                return any(x["kind"] == f["kind"] and x["klass"] == f["klass"] and x.get("cat") == f.get("cat") for x in fs)
+            small = shrink_tree(tree, still)
+            fs, _ = walk_batch(_Quiet(chk), bins, base, [small], globals_txt, fixed, reps, jitter_seed, label="shrink")
+            g = next((x for x in fs if x["kind"] == f["kind"] and x["klass"] == f["klass"] and x.get("cat") == f.get("cat")), None)
+            if g is not None:
+                f = dict(g, unshrunk=tree)
+        kind = f["kind"]
+        chk.fail(kind, f["what"], {"stage": stage, "input": {"globals": globals_txt, "entries": f["tree"], "reps": reps},
+                                   "readable": ["%s %s%s" % (k, p, (" <- " + repr(c)) if c else "") for k, p, c in f["tree"]],
+                                   "detail": f["detail"], "theorem_or_correspondence": (THEOREMS_WALK + "; " + WALK_TIE)},
+                 name=stage, klass=f["klass"], has_input=(kind == "oracle"))
+
+
+class _Quiet:
+    """a Check stand-in for the re-runs of the shrinker: counts nothing"""
+    def __init__(self, chk):
+        self.rng = chk.rng
+
+    def count(self, *a):
+        pass
+
+
+# ---- the CLI level -------------------------------------------------------------------------------------
+def cli_case(xvc_bin, model_bin, entries, globals_txt, repeats=3, track_dir=None):
+    """`xvc file list`, `xvc check-ignore`, `xvc file track <dir>/` on a repository holding the tree.
+    Returns (failures, n_invocations); a failure is (what, detail, observed_sets)."""
+    from .xvc import XvcRepo
+    fails, n = [], 0
+    with XvcRepo(xvc_bin, prefix="c09cli", git=False) as repo:
+        root_ign = repo.read(IGN) or b""
+        tree = [list(e) for e in entries]
+        mine = next((e for e in tree if e[1] == IGN), None)
+        # `xvc init` wrote a root ignore file: the tree's own root lines are appended to it
+        if mine is not None:
+            mine[2] = root_ign.decode() + mine[2]
+        else:
+            tree.append(["f", IGN, root_ign.decode()])
+        for k, p, c in tree:
+            if k == "d":
+                os.makedirs(repo.path(p), exist_ok=True)
+            else:
+                repo.write(p, c if c else "data of " + p)
+        m = model_walks(model_bin, [tree], globals_txt, True)[0]
+        if "error" in m:
+            return [("model rejected the CLI tree", m, [])], 0
+        ref = set(q for q in m["spec"])
+        lists = []
+        for _ in range(repeats):
+            r = repo.xvc("file", "list", "--format", "{{name}}", "--no-summary", "--show-directories", "--show-dot-files")
+            n += 1
+            if r.failed:
+                fails.append(("xvc file list failed: " + r.err[-200:], {}, [])); break
+            lists.append(sorted(x.strip().rstrip("/") for x in r.out.split("\n") if x.strip()))
+        if lists:
+            if any(l != lists[0] for l in lists):
+                fails.append(("xvc file list printed different path sets on repeated runs", {"runs": lists}, lists))
+            special = sorted(q for q in lists[0] if ".xvc" in q.split("/") or ".git" in q.split("/"))
+            if special:
+                fails.append(("xvc file list printed a path inside .xvc / .git: %s" % special[0], {"special": special}, lists))
+            exp = sorted(ref)
+            if sorted(set(lists[0])) != exp:
+                fails.append(("xvc file list differs from the walk in which every pattern acts only below the directory of its ignore file",
+                              {"hidden": sorted(set(exp) - set(lists[0])), "shown": sorted(set(lists[0]) - set(exp))}, lists))
+        # check-ignore: every path whose parent directory is visited; expected verdict = not in the reference set
+        cand = [e[1] for e in tree if e[1] != IGN and (parent_of(e[1]) in ref or "/" not in e[1]) and ".xvc" not in e[1].split("/")]
+        if cand:
+            r = repo.xvc("check-ignore", *cand)
+            n += 1
+            got = {}
+            for l in r.out.split("\n"):
+                mm = re.match(r"\[(IGNORE|NO MATCH|WHITELIST)\] (.*)$", l.strip())
+                if mm and mm.group(2).startswith(repo.root + "/"):
+                    got[mm.group(2)[len(repo.root) + 1:]] = mm.group(1)
+            wrong = sorted(q for q in cand if q in got and (got[q] == "IGNORE") != (q not in ref))
+            if r.failed or len(got) != len(cand):
+                fails.append(("xvc check-ignore failed or skipped paths: " + r.err[-200:], {"got": got}, []))
+            elif wrong:
+                obs = sorted(q for q in cand if got[q] != "IGNORE")
+                fails.append(("xvc check-ignore disagrees with the ignore files above the path", {"paths": {q: got[q] for q in wrong}},
+                              [sorted((ref - set(cand)) | set(obs))]))
+        if track_dir:
+            r = repo.xvc("file", "track", track_dir + "/")
+            n += 1
+            r2 = repo.xvc("file", "list", "--format", "{{cst}} {{name}}", "--no-summary", "--show-dot-files")
+            n += 1
+            tracked = sorted(l.split(" ", 1)[1].strip() for l in r2.out.split("\n") if l.strip() and not l.startswith("X") and " " in l.strip())
+            files = {e[1] for e in tree if e[0] == "f"}
+            exp = sorted(q for q in ref if q in files and under(q, track_dir))
+            if r.panicked or tracked != exp:
+                fails.append(("xvc file track %s/ recorded a different set of files than the ignore files above them allow" % track_dir,
+                              {"missing": sorted(set(exp) - set(tracked)), "extra": sorted(set(tracked) - set(exp)), "stderr": r.err[-200:]},
+                              [sorted((ref - set(exp)) | set(tracked))]))
+    return [(w, d, o, tree, sorted(ref)) for w, d, o in fails], n
+
+
+def gen_cli_tree(rng):
+    """small trees with plain names (what a user would write)"""
+    dirs = rng.sample(["a", "b", "c", "data", "sub"], rng.randint(2, 4))
+    files = ["foo.tmp", "a.txt", "x.dat", "notes.md"]
+    entries = [["f", "top.txt", ""]]
+    for d in dirs:
+        entries.append(["d", d, ""])
+        for f in rng.sample(files, rng.randint(1, 3)):
+            entries.append(["f", d + "/" + f, ""])
+        if rng.random() < 0.4:
+            entries.append(["d", d + "/inner", ""])
+            entries.append(["f", d + "/inner/" + rng.choice(files), ""])
+    names = [e[1] for e in entries]
+    for d in [""] + dirs:
+        if rng.random() < 0.55:
+            inside = [n[len(d) + 1 if d else 0:] for n in names if under(n, d)]
+            lines = [_walk_line(rng, names, inside) for _ in range(rng.randint(1, 2))]
+            lines = [l for l in lines if all(32 < ord(ch) < 127 for ch in l)] or ["*.tmp"]
+            entries.append(["f", (d + "/" if d else "") + IGN, "\n".join(lines) + "\n"])
+    return reorder(entries, lambda p: 0)
+
+
+# ---- the check -------------------------------------------------------------------------------------------
+def load_corpus():
+    d = os.path.join(C.ROOT, "corpus", "C09")
+    out = []
+    if os.path.isdir(d):
+        for f in sorted(os.listdir(d)):
+            if f.endswith(".json"):
+                r = json.load(open(os.path.join(d, f)))
+                r.setdefault("name", f)
+                out.append(r)
+    return out
+
+
+def report_cli(chk, model_bin, fails, globals_txt, fixed):
+    for what, det, observed, tree, ref in fails:
+        if "special" in det:
+            ok, why = whitelist_explains(model_bin, tree, det["special"], fixed)
+            klass = WHITE_CLASS if ok else None
+        else:
+            ok, why = p17_explains(model_bin, tree, ref, observed) if observed else (False, {})
+            klass = P17_CLASS if ok else None
+        chk.fail("oracle", what, {"stage": "cli", "input": {"globals": globals_txt, "entries": tree},
+                                  "readable": ["%s %s%s" % (k, p, (" <- " + repr(c)) if c else "") for k, p, c in tree],
+                                  "detail": dict(det, explained_by=why), "theorem_or_correspondence": THEOREMS_WALK + "; CLI level"},
+                 name="cli", klass=klass)
+
+
+def run(chk, replay=None):
+    tier, rng = chk.tier, chk.rng
+    quick = tier == "quick"
+    install_findings_fallback()
+    chk.cov["trusted_base"] = TRUSTED
+    chk.assumptions += ["the directory tree does not change while it is walked",
+                        "file names are non-empty byte strings without '/' and distinct within a directory (wf_tree)",
+                        "ignore files are ASCII in the generated trees (a multi-byte last character makes Pattern::new panic: pattern_new_panics, outside the property)"]
+    gen = _load_gen()
+    notes = gen.main(C.REPO, C.ROOT)
+    chk.cov["translator_notes"] = notes
+    globals_txt = gen.rust_str_const(open(os.path.join(C.REPO, "core", "src", "util", "xvcignore.rs")).read(), "COMMON_IGNORE_PATTERNS")
+    if globals_txt is None:
+        globals_txt = ".xvc\n.git\n"
+    t_proof = time.time()
+    chk.proof()
+    chk.cov["wall_proof_s"] = round(time.time() - t_proof, 1)
+    model_bin = C.ensure_model("Glob", ["Glob", "Walker"])
+    hb = C.ensure_harness(["globdrv", "walkdrv"])
+    xvc_bin = C.ensure_xvc()
+    bins = {"model": model_bin, "walkdrv": hb["walkdrv"], "globdrv": hb["globdrv"]}
+    fixed = probe_fixed(hb["globdrv"])
+    chk.cov["fixed_P17_in_tree"] = fixed
+    base = C.scratch_dir("c09")
+    dist = {}
+    try:
+        reps = 10 if quick else 40
+        jitter = chk.seed * 1000 + 17
+        # ---- replay of one recorded input
+        if replay:
+            inp = replay.get("input", replay)
+            stage = replay.get("stage", "walk")
+            if stage == "glob" or isinstance(inp, str):
+                a = C.run_lines(model_bin, [inp])[1]; b = C.run_lines(hb["globdrv"], [inp])[1]
+                chk.count(inp, True)
+                if a != b:
+                    chk.fail("correspondence", "glob model and implementation differ on %s: model %s, implementation %s" % (_glob_readable(inp), a, b),
+                             {"stage": "glob", "input": inp, "theorem_or_correspondence": GLOB_TIE}, name="glob", has_input=False)
+            elif stage == "cli":
+                fs, n = cli_case(xvc_bin, model_bin, inp["entries"], inp.get("globals", globals_txt), track_dir=inp.get("track_dir"))
+                chk.count(("cli", enc_entries(inp["entries"])), True)
+                report_cli(chk, model_bin, fs, globals_txt, fixed)
+            else:
+                fs, st = walk_batch(chk, bins, base, [inp["entries"]], inp.get("globals", globals_txt), fixed, inp.get("reps", reps), jitter)
+                report_walk_failures(chk, bins, base, fs, inp.get("globals", globals_txt), fixed, inp.get("reps", reps), jitter)
+                dist["walk"] = st
+            chk.cov["distribution"] = dist
+            chk.cov["rule"] = "replay of one recorded input"
+            return chk
+
+        # ---- corpus first
+        corpus = load_corpus()
+        ctrees = [c for c in corpus if c.get("stage", "walk") == "walk"]
+        t0 = time.time()
+        if ctrees:
+            for c in ctrees:
+                inp = c["input"]
+                fs, st = walk_batch(chk, bins, base, [inp["entries"]], inp.get("globals", globals_txt), fixed, inp.get("reps", reps), jitter)
+                if c.get("expect_class") and (fixed is False or c.get("expect_always")) and not any(f["klass"] == c["expect_class"] for f in fs):
+                    chk.fail("correspondence", "corpus witness %s no longer shows its finding although no fix for it is in the tree" % c["name"],
+                             {"stage": "walk", "input": inp, "theorem_or_correspondence": "findings.d/C09.json witness"}, name="corpus", has_input=False)
+                report_walk_failures(chk, bins, base, fs, inp.get("globals", globals_txt), fixed, inp.get("reps", reps), jitter)
+        for c in [c for c in corpus if c.get("stage") == "glob"]:
+            a = C.run_lines(model_bin, [c["input"]])[1]; b = C.run_lines(hb["globdrv"], [c["input"]])[1]
+            chk.count(c["input"], True)
+            if a != b:
+                chk.fail("correspondence", "corpus %s: glob model %s, implementation %s" % (c["name"], a, b),
+                         {"stage": "glob", "input": c["input"], "theorem_or_correspondence": GLOB_TIE}, name="glob", has_input=False)
+        ncli = 0
+        for c in [c for c in corpus if c.get("stage") == "cli"]:
+            inp = c["input"]
+            fs, n = cli_case(xvc_bin, model_bin, inp["entries"], inp.get("globals", globals_txt), track_dir=inp.get("track_dir"))
+            ncli += n
+            chk.count(("cli", enc_entries(inp["entries"])), True)
+            report_cli(chk, model_bin, fs, globals_txt, fixed)
+        dist["corpus"] = {"cases": len(corpus), "wall_s": round(time.time() - t0, 1)}
+
+        # ---- (1) glob correspondence
+        dist["glob"] = glob_correspondence(chk, model_bin, hb["globdrv"], tier, fixed)
+
+        # ---- (2) walks
+        t0 = time.time()
+        ntrees = 60 if quick else 600
+        trees = [gen_tree(rng) for _ in range(ntrees)]
+        # the same tree in a second enumeration order of the entries (creation order on disk)
+        trees += [shuffle_tree(rng, t) for t in trees[:ntrees // 6]]
+        fs, st = walk_batch(chk, bins, base, trees, globals_txt, fixed, reps, jitter)
+        st["wall_s"] = round(time.time() - t0, 1)
+        st["failures_by_class"] = {}
+        for f in fs:
+            k = "%s:%s:%s" % (f["kind"], f.get("cat", "-"), f["klass"])
+            st["failures_by_class"][k] = st["failures_by_class"].get(k, 0) + 1
+        st["nodes"] = {"min": min(len(t) for t in trees), "max": max(len(t) for t in trees), "mean": round(sum(len(t) for t in trees) / len(trees), 1)}
+        st["ignore_files"] = sum(1 for t in trees for e in t if e[1].split("/")[-1] == IGN)
+        st["nontrivial_trees"] = sum(1 for t in trees if tree_is_nontrivial(t))
+        st["h2_present"] = st["traces"] > 0
+        dist["walk"] = st
+        chk.cov["traces_validated_against_impl"] = st["traces"]
+        C.log("walks: %d trees, %d real walks, %d H2 traces (%d events, %d cross-thread adjacent pairs), %d locality variants, %d failure(s) %s, %.1fs" % (
+            st["trees"], st["walks"], st["traces"], st["trace_events"], st["interleaved_pairs"], st["locality_variants"], len(fs), st["failures_by_class"], st["wall_s"]))
+        for t in (trees[0], trees[len(trees) // 2]):
+            chk.sample("tree: " + "; ".join("%s%s" % (p, ("=" + repr(c)) if c else "") for k, p, c in t)[:600], limit=16)
+        report_walk_failures(chk, bins, base, fs, globals_txt, fixed, reps, jitter)
+
+        # ---- (3) CLI level
+        t0 = time.time()
+        ncases = 4 if quick else 24
+        from concurrent.futures import ThreadPoolExecutor
+        ctrees = [gen_cli_tree(rng) for _ in range(ncases)]
+        tdirs = [rng.choice([e[1] for e in t if e[0] == "d" and "/" not in e[1]]) for t in ctrees]
+        with ThreadPoolExecutor(4) as ex:
+            rs = list(ex.map(lambda a: cli_case(xvc_bin, model_bin, a[0], globals_txt, repeats=3 if quick else 5, track_dir=a[1]), zip(ctrees, tdirs)))
+        nfail = 0
+        for t, (fl, n) in zip(ctrees, rs):
+            ncli += n
+            chk.count(("cli", enc_entries(t)), tree_is_nontrivial(t))
+            nfail += len(fl)
+            report_cli(chk, model_bin, fl[:2], globals_txt, fixed)
+        dist["cli"] = {"repositories": ncases, "xvc_invocations": ncli, "failures": nfail, "wall_s": round(time.time() - t0, 1)}
+        C.log("cli: %d repositories, %d xvc invocations, %d failure(s), %.1fs" % (ncases, ncli, nfail, time.time() - t0))
+    finally:
+        C.rm_rf(base)
+    chk.cov["distribution"] = dist
+    chk.cov["rule"] = ("glob cases: distinct input lines whose glob has a metacharacter / whose rule is not blank or comment / whose check involves a pattern "
+                       "from a directory the path is not below (as before); walk and CLI trees: non-trivial = the tree has an ignore file below the root with a "
+                       "name-only line (no '/' before its end) whose name pattern matches the last component of a path outside its directory; distinct by the entry list")
+    chk.cov["exhaustive"] = False
+    return chk
